@@ -1,3 +1,3 @@
 #!/bin/bash
 # ./mk <target.vo ...> : refresh _CoqProject/Makefile and build (dev helper)
-cd /verif && exec 9>/verif/.build.lock && flock 9 && PYTHONPATH=/verif python3 -c "from harness import common; common.refresh_coqproject()" && cd coq && timeout ${MK_TIMEOUT:-600} make -j16 "$@" 2>&1 | grep -v "^COQ\|^CLEAN"
+cd /verif && exec 9>/verif/.build.lock && flock 9 && PYTHONPATH=/verif python3 -c "from harness import common; common.refresh_coqproject()" && cd coq && timeout ${MK_TIMEOUT:-600} make -j16 "$@" 2>&1 | { grep -v "^COQ\|^CLEAN" || true; }
